@@ -1802,11 +1802,20 @@ impl Date {
         other: A,
     ) -> Result<Span, Error> {
         let args: DateDifference = other.into();
-        let span = -args.since_with_largest_unit(self)?;
+        let span = args.since_with_largest_unit(self)?;
         if args.rounding_may_change_span() {
-            span.round(args.round.largest(args.get_largest()).relative(self))
+            // N.B. We round the span from `self` to `other` and negate the
+            // result, instead of the other way around. Otherwise, calendar
+            // units would be measured on the wrong side of `self`, and
+            // `a.since(b)` wouldn't be the negation of `a.until(b)`. The
+            // rounding mode applies to the span returned, so it is negated
+            // along with the span being rounded.
+            let round = args.round.negate_mode();
+            let span =
+                span.round(round.largest(args.get_largest()).relative(self))?;
+            Ok(-span)
         } else {
-            Ok(span)
+            Ok(-span)
         }
     }
 
